@@ -25,7 +25,7 @@ RULE = ("cases: (h2) HTTP/2 header lists = the four pseudo-headers mutated (miss
         "accepted with >=2 regular fields, or an h1 input of >=2 requests / a mutated request; distinct by op text.")
 ASSUMPTIONS = [
     "HPACK decoding is loona-hpack's: the model's input is the decoded header list",
-    "kawa's H1 parser is an oracle for the H1 frontend: h1_forwarded_is_what_was_read is conditional on its output being well-formed; that it only emits such output or rejects is checked differentially (strict reader on what it wrote), with open findings",
+    "kawa's H1 parser is an oracle for the H1 frontend: h1_forwarded_is_what_was_read is conditional on its output being well-formed; that it only emits such output or rejects is checked differentially (strict reader on what it wrote); the findings it produced are fixed in sozu's own callback layer (h1_guard)",
     "the strict reader in the driver (Rust) is tied to the Coq strict_h1 by the correspondence on every h1/h2 case",
     "Content-Length vs DATA (h2.rs handle_data_frame / trailers path) is tied by a source translator and by the HTTP/2 black-box tier: scripted TLS h2 streams (short, long, early END_STREAM, Content-Length with END_STREAM, trailers) whose client outcome is the one data_agree predicts",
 ]
@@ -332,6 +332,22 @@ def translate():
         if extra:
             return "the parking rule has other conditions %r" % sorted(extra)
     _fact(fails, "h1.rs ConnectionH1::end_stream", "KeepAlive iff keep_alive_backend, response terminated, no interim in the buffer, request terminated and completely written", park, hard=True)
+
+    def h2_end():
+        # ConnectionH2::end_stream, client side: RST_STREAM unless the stream is closed in both directions / already reset
+        cands = [x for x in re.finditer(r"let\s+(\w+)\s*=\s*([^;{}]*);", h2)
+                 if "rst_sent.contains" in h2[x.end():x.end() + 400] and re.search(r"end_of_stream|is_terminated", x.group(2))]
+        if len(cands) != 1:
+            raise F.Unreadable("the `stream fully completed` test in front of the RST_STREAM of the H2 backend side is not found (%d candidates)" % len(cands))
+        m = cands[0]
+        got = {re.sub(r"\s+", "", c) for c in m.group(2).split("&&")}
+        if got != {"stream.back_received_end_of_stream", "stream.front.is_terminated()"}:
+            return "an HTTP/2 backend stream counts as closed on %r (the model: response ended AND request sent to its end)" % sorted(got)
+        mi = re.search(r"if\s+([^{]*)\{", h2[m.end():m.end() + 400])
+        cond = {re.sub(r"\s+", "", c) for c in mi.group(1).split("&&")} if mi else set()
+        if "!" + m.group(1) not in cond or not any(c.startswith("!self.rst_sent.contains(") for c in cond) or len(cond) != 2:
+            return "RST_STREAM toward the backend is queued on %r (the model: not fully completed and not reset before)" % sorted(cond)
+    _fact(fails, "h2.rs ConnectionH2::end_stream (client side)", "RST_STREAM unless response ended and request terminated, or already reset", h2_end, hard=True)
 
     def front_reset():
         mw = re.search(r"stream\.front\.clear\(\)\s*;", h1)
@@ -714,7 +730,8 @@ def h2_stream(rng, tag):
     h2c = rng.random() < 0.3
     clean = rng.random() < 0.45      # only the framing is adversarial
     good_path = ("/h2/%s" % tag) if h2c else ("/%s" % tag)
-    method, path, auth, scheme = rng.choice(["POST", "POST", "GET", "PUT"]), good_path, "localhost", "https"
+    # (a client may claim `:scheme: http` on the TLS listener: accepted; toward an h2c backend sozu writes the listener's)
+    method, path, auth, scheme = rng.choice(["POST", "POST", "GET", "PUT"]), good_path, "localhost", rng.choice(["https", "https", "https", "http"])
     r = 1.0 if clean else rng.random()
     if r < 0.08:
         method = rng.choice(["GE T", "G\x00T", "", "get"])
@@ -908,22 +925,35 @@ def parse_h2_obs(ob):
     h2 = {}
     for _ in range(k):
         h2[ob[i]] = (ob[i + 1], ob[i + 2]); i += 3
+    # then: `h2rst` n path*  (streams on which the h2c backend received RST_STREAM), see parse_h2_rst
     return outc, goaway, h1, h2
 
 
+def parse_h2_rst(ob):
+    if "h2rst" not in ob:
+        return []
+    i = ob.index("h2rst")
+    return list(ob[i + 2:i + 2 + ob[i + 1]])
+
+
 def h2_cancel_cases(rng, n):
-    """a stream whose request body is INCOMPLETE ends (answered on its head by the backend, then cancelled by the
-    client with RST_STREAM; or cancelled before any answer), then another stream goes to the same HTTP/1.1 backend:
-    the second request must reach the backend as a request of its own (new connection), never on the connection where
-    the backend still waits for the first body (witness of the finding fixed in h1.rs end_stream)"""
+    """a stream whose request body is INCOMPLETE ends - answered on its head by the backend then cancelled by the client
+    with RST_STREAM, or cancelled before any answer - and another stream goes to the same backend. HTTP/1.1 backend: the
+    second request must reach the backend as a request of its own, never on the connection where the backend still waits
+    for the first body (witness of the finding fixed in h1.rs end_stream, 48550c2); a cancelled chunked upload never gets
+    its last-chunk. h2c backend (/h2/ paths): the cancelled stream is never shown END_STREAM, the backend receives
+    RST_STREAM for it (no half-open request left on the shared connection), the next stream is served on it."""
     out = []
     for i in range(n):
-        declared = rng.choice([400, 400, 5, 70000])
-        sent = rng.choice([0, 0, rng.randint(1, min(declared, 300) - 1)])
-        answered_first = i % 3 != 2
-        p1 = ("/early%d" % i) if answered_first else ("/held%d" % i)
-        ops = [["sid", 1],
-               ["hdr", 0] + [b(x) for x in (":method", "POST", ":scheme", "https", ":path", p1, ":authority", "localhost", "content-length", str(declared))]]
+        h2c = i % 3 == 1
+        pre = "/h2" if h2c else ""
+        declared = rng.choice([400, 400, 5, 70000, None, None])
+        cap = min(declared, 300) if declared else 300
+        sent = rng.choice([0, 0, rng.randint(1, cap - 1)]) if declared else rng.randint(1, cap)
+        answered_first = (i % 3 == 0) or (h2c and i % 2 == 1)      # both recording backends answer /early* on the head
+        p1 = pre + (("/early%d" % i) if answered_first else ("/held%d" % i))
+        hs = [":method", "POST", ":scheme", "https", ":path", p1, ":authority", "localhost"] + (["content-length", str(declared)] if declared else [])
+        ops = [["sid", 1], ["hdr", 0] + [b(x) for x in hs]]
         if sent:
             ops.append(["data", sent, 0])
         if answered_first:
@@ -934,14 +964,14 @@ def h2_cancel_cases(rng, n):
         ops.append(["wait", rng.choice([10, 50, 120])])
         second_post = rng.random() < 0.4
         ops.append(["sid", 3])
-        p2 = "/second%d" % i
+        p2 = pre + "/second%d" % i
         if second_post:
             ops.append(["hdr", 0] + [b(x) for x in (":method", "POST", ":scheme", "https", ":path", p2, ":authority", "localhost", "content-length", "5")])
             ops.append(["data", 5, 1])
         else:
             ops.append(["hdr", 1] + [b(x) for x in (":method", "GET", ":scheme", "https", ":path", p2, ":authority", "localhost")])
         ops.append(["go"])
-        out.append(Case("zc%d" % i, ops, dict(kind="h2cancel", second=p2, body=5 if second_post else 0, answered_first=answered_first)))
+        out.append(Case("zc%d" % i, ops, dict(kind="h2cancel", first=p1, second=p2, body=5 if second_post else 0, answered_first=answered_first, h2c=h2c)))
     return out
 
 
@@ -951,12 +981,25 @@ def judge_h2_cancel(c, o, res):
         res["failures"].append("black-box h2: no observation for case %s" % c.id)
         return
     outc, goaway, h1, h2 = parse_h2_obs(ob[0])
+    rsts = parse_h2_rst(ob[0])
     kind, code = outc.get(3, ("silent", 0))
-    key = b(c.tags["second"])
-    if kind != "answered" or h1.get(key) != c.tags["body"]:
-        res["viols"].append((c, "h2bb-cancelled-upload", "after the stream with an unfinished request body ended, the next stream (%s) got %s %s and the "
-                             "backend read %r as its body (seen %r): it was written on the connection where the backend still waits for the first body"
-                             % (c.tags["second"], kind, code, h1.get(key), sorted(h1))))
+    key, first = b(c.tags["second"]), b(c.tags["first"])
+    if c.tags["h2c"]:
+        got = h2.get(key)
+        if kind != "answered" or got is None or got[0] != c.tags["body"] or not got[1]:
+            res["viols"].append((c, "h2bb-cancelled-upload", "after a cancelled upload the next stream to the h2c backend (%s) got %s %s, backend saw %r" % (c.tags["second"], kind, code, got)))
+        f = h2.get(first)
+        if f is not None and f[1]:
+            res["viols"].append((c, "h2bb-cancelled-complete", "the h2c backend was shown END_STREAM on %s, an upload the client cancelled before its end" % c.tags["first"]))
+        if f is not None and first not in rsts:
+            res["viols"].append((c, "h2bb-half-open", "the h2c backend holds a half-open request (%s, cancelled by the client): no RST_STREAM reached it" % c.tags["first"]))
+    else:
+        if kind != "answered" or h1.get(key) != c.tags["body"]:
+            res["viols"].append((c, "h2bb-cancelled-upload", "after the stream with an unfinished request body ended, the next stream (%s) got %s %s and the "
+                                 "backend read %r as its body (seen %r): it was written on the connection where the backend still waits for the first body"
+                                 % (c.tags["second"], kind, code, h1.get(key), sorted(h1))))
+        if first in h1:
+            res["viols"].append((c, "h2bb-cancelled-complete", "the HTTP/1.1 backend read %s as a COMPLETE request although the client cancelled the upload before its end" % c.tags["first"]))
     if c.tags["answered_first"] and outc.get(1, ("silent", 0))[0] != "answered":
         res["failures"].append("black-box h2: case %s: the backend's early answer did not reach the client (%r)" % (c.id, outc.get(1)))
 
@@ -976,7 +1019,7 @@ def extra_stage(tier, rng, work):
     except Exception as ex:
         res["failures"].append("black-box h2: model predictions unavailable: %r" % (ex,))
         return res
-    cancels = h2_cancel_cases(rng, {"quick": 9, "thorough": 90}.get(tier, 9))
+    cancels = h2_cancel_cases(rng, {"quick": 12, "thorough": 90}.get(tier, 12))
     outs, problems = vlib.run_harness("c03h2bb", scns + cancels, os.path.join(work, "h2bb"), "release", timeout=300, shards=6)
     res["failures"] += problems
     for c in cancels:
